@@ -70,6 +70,9 @@ impl<'a> Visitor for Enumerate<'a> {
         let mut xs = with_signs(vec![0.0, F::TINY, 1e-300f64.max(F::TINY * 1e20), 1e-5, 1e-3]);
         xs.extend(with_signs(nb::<F>(2.0 * F::U)));
         xs.extend(with_signs(nb::<F>(F::U)));
+        // the switch from the series to the closed form at |x| = 1 and arguments just below it
+        xs.extend(with_signs(nb::<F>(1.0)));
+        xs.extend(with_signs(vec![0.9, 0.999]));
         for op in [Op::SphJ0, Op::SphJ1, Op::SphJ2] {
             for &x in &xs {
                 list.push((op, vec![x]));
@@ -112,6 +115,8 @@ impl<'a> VisitorCopy for Enumerate<'a> {
         let mut xs = with_signs(vec![0.0, 5e-324, 1e-300, 1e-8]);
         xs.extend(with_signs(nb::<f64>(1e-5)));
         xs.extend(with_signs(nb::<f64>(5.0)));
+        xs.extend(with_signs(nb::<f64>(1.0)));
+        xs.extend(with_signs(vec![1e-3, 0.9, 0.999]));
         for op in [Op::BesselJ0, Op::BesselJ1, Op::BesselJ2] {
             for &x in &xs {
                 list.push((op, vec![x]));
@@ -125,6 +130,9 @@ impl<'a> VisitorCopy for Enumerate<'a> {
 
 fn universe(tier: Tier, v: &mut impl Visitor) {
     scalar_types(v);
+    // the plain-float instances of the generic interface have their own spherical Bessel code
+    v.visit::<f64, f64>(Dims::NONE);
+    v.visit::<f32, f32>(Dims::NONE);
     static_vector_types(Tier::Quick, v);
     dynamic_vector_types(&[0, 1, 2], v);
     nested_types(tier, v);
@@ -155,7 +163,7 @@ fn main() {
         mode: cli.mode,
         seed: cli.seed,
         start,
-        rule: "the enumerated special points of every function (powi n=0..8 at 0, -0, +-denormal, +-1e-300; powf at 0 for integer exponents and non-integer exponents above the order of the type, incl. float neighbours of 2..5; sph_j0/1/2 at 0, denormals, +-eps, +-eps/2 and neighbours, 1e-5, 1e-3; bessel_j0/1/2 at 0, denormal, 1e-300, 1e-8, +-1e-5 and +-5 with neighbours; atan2 on both axes incl. denormal and 1e-300 off-axis components; exp_m1, ln_1p at 0 and tiny arguments) x every type x every presence pattern x the full tensor grid of derivative parts (budgeted)".into(),
+        rule: "the enumerated special points of every function, on every dual type and on the plain f32 / f64 instances (switch points |x| = 1 of the spherical Bessel functions and of bessel_j2 with their float neighbours included; powi n=0..8 at 0, -0, +-denormal, +-1e-300; powf at 0 for integer exponents and non-integer exponents above the order of the type, incl. float neighbours of 2..5; sph_j0/1/2 at 0, denormals, +-eps, +-eps/2 and neighbours, 1e-5, 1e-3; bessel_j0/1/2 at 0, denormal, 1e-300, 1e-8, +-1e-5 and +-5 with neighbours; atan2 on both axes incl. denormal and 1e-300 off-axis components; exp_m1, ln_1p at 0 and tiny arguments) x every type x every presence pattern x the full tensor grid of derivative parts (budgeted)".into(),
         assumptions: vec!["every part must be finite and within the tolerance of DESIGN 2.5 of the Maclaurin / limit value".into()],
         extra: json!({"axes": axes}),
         exhaustive: true,
